@@ -41,6 +41,14 @@ def ops : OpTable := [
     | "inv" => ofInts (inv x)
     | "reduce" => ofInts (reduce x)
     | _ => .none),
+  -- fe256.ctor <one|zero|set> [old receiver limbs] [x] → limbs   (constructor programs run on the OLD receiver content)
+  ("fe256.ctor", pureOp fun a =>
+    let old := intsOf (arg a 1); let x := intsOf (arg a 2)
+    match (arg a 0).asStr with
+    | "one" => ofInts (oneP old)
+    | "zero" => ofInts (zeroP old)
+    | "set" => ofInts (setP old x)
+    | _ => .none),
   ("fe256.setBytes", pureOp fun a => outcomeLimbs (setBytes (arg a 0).asBytes)),
   ("fe256.bytes", pureOp fun a => .bytes (bytes (intsOf (arg a 0)))),
   ("fe256.equal", pureOp fun a => .int (equal (intsOf (arg a 0)) (intsOf (arg a 1)))),
